@@ -109,26 +109,31 @@ theorem candidates_injective (n : Name) (d : Nat) :
     (∀ a b, Name.arc (Name.ren n d a) = Name.arc (Name.ren n d b) → a = b) := by
   constructor <;> intro a b h <;> injection h with h <;> first | exact (by injection h) | assumption
 
-/-- tie G: the sink opens its file in append mode, `_close_file` flushes, closes, then forgets the
-file, and `Compression.compression` removes the source last -/
+/-- tie G: the sink opens its file in append mode, `_close_file` flushes, forgets the file object, then
+closes it, and `Compression.compression` removes the source last -/
 theorem generated_shape :
     Gen.fileMode = "a".toList ∧
-    Gen.closeOrder = [.flush, .close, .resetFile, .resetPath, .resetDev, .resetIno] ∧
+    Gen.closeOrder = [.bindFile, .flush, .resetFile, .resetPath, .resetDev, .resetIno, .close] ∧
     Gen.compressionOrder = [.pathOut, .collisionRename, .compress, .removeSource] ∧
     Gen.terminateOrder = [.close, .newPath, .mkdirs, .sameNameRename, .compression, .retention, .createFile] ∧
     Gen.writeOrder = [.lazyCreate, .reopen, .rotationTest, .terminate, .writeMessage] ∧
     Gen.makedirsExistOk = true := by decide
 
-def isValueError (r : Except Err Unit) : Bool := match r with | .error .valueError => true | _ => false
+/-- **never_holds_closed_file**: whatever fails – in particular `file.close()` itself – the sink never keeps
+a closed file object (`_close_file` forgets the object before closing it, generated order `Gen.closeOrder`). -/
+theorem never_holds_closed_file (cfg : Cfg) (ops : List Op) (fs : FS) (faults : List Bool) (nid : Nat) :
+    (run cfg ops (start fs faults nid)).closed = false :=
+  run_notClosed cfg ops (start fs faults nid) rfl
 
-/-- FULL statement of `sink_usable_after_any_fault` (false of the current code, finding F13): after any
-history of logging calls, a call during which no fault is injected and whose rotation predicate says
-"no" is acknowledged. -/
-def sink_usable_statement : Prop :=
-  ∀ (cfg : Cfg) (ops : List Op) (fs : FS) (faults : List Bool) (nid : Nat) (o : Orc),
-    (∀ op ∈ ops, ∃ o', op = .write o' ∨ op = .init o') →
-    (run cfg ops (start fs faults nid)).faults = [] → o.rot = false → cfg.watch = false →
-    isOk (writeBody cfg o (run cfg ops (start fs faults nid))).1 = true
+/-- **sink_usable_after_any_fault**: after ANY history (logging calls, stops, restarts, external deletions,
+with any faults at any primitives – whatever half-finished rotation, compression or retention preceded), a
+logging call during which no fault is injected is acknowledged.  Remaining explicit guards: no rotation is due
+in that call and `watch` is off (with a rotation due the outcome also depends on the retention oracle; those
+cases are judged on the implementation by the monitor of harness/c08.py). -/
+theorem sink_usable_after_any_fault (cfg : Cfg) (ops : List Op) (fs : FS) (faults : List Bool) (nid : Nat) (o : Orc)
+    (hf : (run cfg ops (start fs faults nid)).faults = []) (hr : o.rot = false) (hw : cfg.watch = false) :
+    isOk (writeBody cfg o (run cfg ops (start fs faults nid))).1 = true :=
+  write_ok_of_good cfg o _ hf (never_holds_closed_file cfg ops fs faults nid) hr hw
 
 def witnessCfg : Cfg := { hasRot := true, comp := none, hasRet := false, watch := false, nglob := 4 }
 def witnessOrc (rot : Bool) : Orc := { rot := rot, clk := 0, ct1 := 5, ct2 := 6, ret := [] }
@@ -137,31 +142,13 @@ def witnessW : W :=
   run witnessCfg [.write (witnessOrc false), .write (witnessOrc true)]
     (start [] [false, false, false, false, false, false, true] 0)
 
-/-- witness: a fault at `file.close()` during a rotation leaves `_file` set to a closed file object; the
-next (fault-free) message raises ValueError.  Replayed on the implementation by harness/c08.py. -/
-theorem sink_usable_witness :
-    witnessW.faults = [] ∧ witnessW.closed = true ∧ witnessW.trace.head? = some Ev.close ∧
-    isValueError (writeBody witnessCfg (witnessOrc false) witnessW).1 = true := by decide +kernel
-
-theorem sink_usable_statement_false : ¬ sink_usable_statement := by
-  intro h
-  have h1 := h witnessCfg [.write (witnessOrc false), .write (witnessOrc true)]
-    [] [false, false, false, false, false, false, true] 0 (witnessOrc false)
-    (by intro op hop; simp at hop; rcases hop with rfl | rfl <;> exact ⟨_, Or.inl rfl⟩)
-    (by decide +kernel) rfl rfl
-  have h2 : isOk (writeBody witnessCfg (witnessOrc false)
-      (run witnessCfg [.write (witnessOrc false), .write (witnessOrc true)]
-        (start [] [false, false, false, false, false, false, true] 0))).1 = false := by decide +kernel
-  rw [h2] at h1; cases h1
-
-/-- **sink_usable_after_any_fault**, proved part (explicit guard: the file object is not a closed one, i.e.
-no `close()` failed): after ANY history – whatever half-finished rotation, compression or retention
-preceded – a call with no fault pending and no rotation due is acknowledged. -/
-theorem sink_usable_partial (cfg : Cfg) (ops : List Op) (fs : FS) (faults : List Bool) (nid : Nat) (o : Orc)
-    (hguard : (run cfg ops (start fs faults nid)).closed = false)
-    (hf : (run cfg ops (start fs faults nid)).faults = []) (hr : o.rot = false) (hw : cfg.watch = false) :
-    isOk (writeBody cfg o (run cfg ops (start fs faults nid))).1 = true :=
-  write_ok_of_good cfg o _ hf hguard hr hw
+/-- regression of finding F26 (fixed in e6154e8; before the fix the last component was a `ValueError`): a
+fault at `file.close()` during a rotation leaves no file object behind and the next message is acknowledged
+into the same file.  Replayed on the implementation by harness/c08.py (corpus/C08/002). -/
+theorem close_fault_regression :
+    witnessW.faults = [] ∧ witnessW.trace.head? = some Ev.close ∧ witnessW.closed = false ∧ witnessW.cur = none ∧
+    isOk (writeBody witnessCfg (witnessOrc false) witnessW).1 = true ∧
+    (writeBody witnessCfg (witnessOrc false) witnessW).2.fs.get (.base 0) = some (.file [0, 2]) := by decide +kernel
 
 /-- non-vacuity: a history with a rotation, a collision and a compression acknowledges messages that end
 up in an archive -/
